@@ -102,6 +102,13 @@ func LoadKnown(path string) ([]Known, error) {
 		default:
 			return nil, fmt.Errorf("known_findings: bad line %q", line)
 		}
+		// site may be quoted: site="a b c"
+		if i := strings.Index(line, `site="`); i >= 0 {
+			if j := strings.Index(line[i+6:], `"`); j >= 0 {
+				k.Site = line[i+6 : i+6+j]
+				line = line[:i] + line[i+6+j+1:]
+			}
+		}
 		fields := strings.Fields(line)
 		rest := []string{}
 		for _, fld := range fields {
